@@ -65,8 +65,15 @@ def convs(rng, tier):
             k = rng.randrange(nupd)
             handler = [None] * k + [(rng.choice([3, 6, 2]), rng.randint(0, 11), gen.rbytes(rng, rng.choice([0, 1, 5])))]
             tag = "updates.handler-notification"
-        c = S.Conv(sid, direction=direction, handler=handler, tag=tag + "." + direction)
-        c.send(S.frame(S.OPEN, S.open_body())).send(S.frame(S.KEEPALIVE))
+        # the negotiated hold time (incl. 0 = timers disabled) and a nil UpdateMessageHandler are modes of the same path
+        hl, hr = rng.choice([(90, 90)] * 3 + [(0, 90), (90, 0), (0, 0), (3, 240)])
+        nilh = (not handler) and rng.random() < 0.2
+        c = S.Conv(sid, direction=direction, hold=hl, handler=handler,
+                   tag=tag + (".hold0" if min(hl, hr) == 0 else "") + (".nilhandler" if nilh else "") + "." + direction)
+        if nilh:
+            c.nil_handler = True
+            c.scenario_extra = {"nil_handler": True}
+        c.send(S.frame(S.OPEN, S.open_body(hold=hr))).send(S.frame(S.KEEPALIVE))
         if rng.random() < 0.5:
             s = b"".join(msgs)
             c.send(s, plan(rng, len(s))[:400] or None)       # one stream, arbitrary cuts
@@ -80,6 +87,8 @@ def convs(rng, tier):
             bodies = bodies[:len(handler)]
             h = handler[-1]
             nb = bytes([h[0], h[1]]) + bytes(h[2])
+        if nilh:
+            bodies = []
         c.meta = {"bodies": bodies, "notif": nb}
         c.judge = judge
         out.append(c)
